@@ -45,6 +45,13 @@ def gen_cases(ck):
                       "fit": "dlite", "kind": ["rotate", "all"][(i // 2) % 2], "t_angle": float(ck.rng.uniform(0.2, 1.3)), "t_scale": float(10.0 ** ck.rng.uniform(-2, 2)),
                       "t_shift": [float(ck.rng.normal() * 10), float(ck.rng.normal() * 10)]})
     for i in range(4 if ck.tier == "quick" else 24):
+        # a pure change of the length unit across the value 1 of the cell areas (cells of area 0.02..0.05 in the original unit, 10..5000
+        # in the other), cells stored in both rotational senses
+        cases.append({"type": "static", "seed": int(ck.rng.integers(1 << 30)), "tissue": ["random", "jitter", "hex"][i % 3], "sites": int(ck.rng.integers(20, 40)),
+                      "subset": None, "min_ridge": 0.005, "mobius": True, "strength": float(ck.rng.uniform(0.5, 2.0)), "kmin": 2, "kmax": 6,
+                      "param_mode": "uniform", "noise": 0.0, "fit": ["dlite", "taubinSVD"][i % 2], "kind": "scale", "t_angle": 0.0,
+                      "t_scale": float(10.0 ** ck.rng.uniform(1.3, 2.5)), "t_shift": [0.0, 0.0], "p_rev": 0.5, "shifts": True})
+    for i in range(4 if ck.tier == "quick" else 24):
         # a curved interface whose first chord at a junction is exactly axis-parallel in the original pose, generic after the rotation
         cases.append({"type": "static", "seed": int(ck.rng.integers(1 << 30)), "tissue": ["random", "jitter"][i % 2], "sites": int(ck.rng.integers(20, 40)),
                       "subset": None, "min_ridge": 0.005, "mobius": True, "strength": float(ck.rng.uniform(1.0, 2.5)), "kmin": 1, "kmax": [1, 3, 8][i % 3],
@@ -205,7 +212,9 @@ def run_static_case(ck, case, reqs, pending):
         # and the augmented problem is not covariant under rotations / reflections
         lam = max(abs(float(pa.fm._verif["xres_raw"][-1])), abs(float(pb.fm._verif["xres_raw"][-1])))
         rotated = case["kind"] in ("rotate", "reflect", "all")
-        sig = SIG_LAM if (lam > 1e-6 and rotated) else (SIG_D2 if flagged else None)
+        # the sign forcing (D2) is invariant under translations and changes of unit (tangentVec_translate / _scale): it can explain a
+        # deviation only when the tissue was rotated or reflected
+        sig = SIG_LAM if (lam > 1e-6 and rotated) else (SIG_D2 if (flagged and rotated) else None)
         if dt > tol:
             ck.fail("the static tension of every physical interface is unchanged", f"max deviation {dt:.3g} (tolerance {tol:.3g}; multiplier {lam:.3g})", case,
                     signature=sig)
